@@ -579,6 +579,6 @@ pub fn run(tier: Tier, seed: u64) -> i32 {
     report.space("all interleavings of {encrypt/decrypt chunks of length 1,4,6 x 2 contents, split, clone, unsplit} up to the stated depths for vanilla, tbc, wrath-client, wrath-server with exact dedup");
     report.space("two Wrath client connections (different and identical keys) used alternately through the typed header API, with the half optionally moved to another thread between the 4-byte attempt and the fifth byte, BFS with exact dedup");
     report.space("Vanilla unsplit: all 40x255 one-byte key differences, all position pairs x 3 two-byte differences, identical keys at 4..64 (enc,dec) stream positions, unrelated keys");
-    report.assume("thread schedules: the halves own all their state (no statics/interior mutability - see premise_scan), so a real schedule is equivalent to a call-level interleaving; loom explores all schedules of 2 threads x 3 operations with scheduling points between library calls");
+    report.assume("thread schedules: the halves own all their state (no statics/interior mutability - see premise_scan), so a real schedule is equivalent to a call-level interleaving; loom explores all schedules of 2 threads x 3 operations (five harnesses) and 3 threads x 2 operations (one harness) with scheduling points between library calls");
     report.finish()
 }
